@@ -35,6 +35,9 @@ func c03Build(g *gen.G, n int, invalid []bool, msg []byte, h hash.Hasher, H bls3
 			xs[i], _ = drawScalar(g, fmt.Sprintf("%ssk%d", label, i))
 		}
 		b.pks[i] = decodeSK(g, xs[i]).PublicKey()
+		if g.Chance(label+"pkOtherRoute", 1, 5) { // the same point obtained through another constructor (decoded, aggregate, removal)
+			b.pks[i] = pkVariant(g, fmt.Sprintf("%spkVia%d", label, i), blsKey{pk: b.pks[i], x: xs[i]})
+		}
 		b.points[i] = H.Mul(xs[i])
 		b.exact[i] = bls381.G1Compress(b.points[i])
 		b.sigs[i] = append([]byte{}, b.exact[i]...)
